@@ -719,6 +719,9 @@ func runCase(oc *fw.Outcome, c scase) {
 			if rp.Cached {
 				oc.Violate("cache:"+class+"/cached", "the branch taken (after the last restart) is not the hit branch but `cached` is true", detail())
 			}
+			if h := rp.ClientResponse.Headers["x-cache-hits"]; h != "0" && h != "" {
+				oc.Violate("cache:"+class+"/x-cache-hits", fmt.Sprintf("the response was fetched (X-Cache says MISS) but X-Cache-Hits is %q: the hit count of an object looked up before the restart", h), detail())
+			}
 			oc.Tag("branch:miss-or-pass")
 		case -1:
 			// no lookup in the pass that produced the response (recv -> error, possibly after a restart out of
